@@ -479,6 +479,15 @@ def load (env : Env) (p : Proc) (target : Str) (ov : List (Str × OVal)) : Excep
     let r := applyOverrides h0 tsec ov
     .ok { p with heap := r.1, ctxs := p.ctxs ++ [{ sections := dset secs target r.2, encs := [] }] }
 
+/-- The configuration of a new context taken on its own (as in a process that does nothing else): the document's list
+objects followed by the overrides' list objects, the sections with the target's overrides merged in. -/
+def standalone (env : Env) (target : Str) (ov : List (Str × OVal)) : Option (Heap × List (Str × Section)) :=
+  match aget env.doc.sections target with
+  | none => none
+  | some tsec =>
+    let r := applyOverrides env.doc.cells tsec ov
+    some (r.1, dset env.doc.sections target r.2)
+
 def lruFind (l : List (Key × Str)) (k : Key) : Option Str :=
   match l with
   | [] => none
